@@ -565,7 +565,7 @@ def gen_op(rng, spec, handles, nonlinear: bool):
     if kind in ("solve", "steady"):
         return {"op": kind, "h": h}
     if kind == "alter":
-        return {"op": "alter", "h": h, "n": rng.choice([1, 2, 2, 3, 3, 4, nv, nv + 1])}
+        return {"op": "alter", "h": h, "n": rng.choice([1, 1, 2, 2, 3, 3, 4, 5, nv, nv + 1, nv + 2, nv + 3])}
     if kind == "copy":
         return {"op": "copy", "h": h}
     if kind == "pickle":
@@ -1018,6 +1018,8 @@ def run(ctx: Ctx):
     compare_lines(ctx, "history", cases, lines, impl)
     portable_stream(ctx, ctx.n(80, 600))
     other_models_stream(ctx, ctx.n(40, 600))
+    flags_stream(ctx)
+    memo_stream(ctx, ctx.n(80, 1500))
 
 
 def search(ctx: Ctx, seeds):
@@ -1037,6 +1039,8 @@ def search(ctx: Ctx, seeds):
         return
     portable_stream(ctx, 150)
     other_models_stream(ctx, 100)
+    flags_stream(ctx)
+    memo_stream(ctx, 150)
 
 
 def replay(ctx: Ctx, payload, from_corpus=None):
@@ -1046,6 +1050,15 @@ def replay(ctx: Ctx, payload, from_corpus=None):
         return
     if isinstance(case, dict) and case.get("kind") == "other":
         other_case(ctx, case)
+        return
+    if isinstance(case, dict) and case.get("kind") == "memo":
+        req, rep = memo_case(ctx, case)
+        if "?" in rep:
+            ctx.fail("expansion-memo-entry-wrong", case, rep[:200])
+        ctx.compare("memo", [case], [rep], ctx.model("C20", [req]))
+        return
+    if isinstance(case, dict) and case.get("kind") == "flags":
+        flags_stream(ctx)
         return
     if isinstance(case, dict) and "spec" in case:
         c = {"spec": case["spec"], "ops": list(case["ops"])}
@@ -1057,3 +1070,4 @@ def replay(ctx: Ctx, payload, from_corpus=None):
 # the portable codec and the Sequential / RedVAR oracles are defined below
 from .c20_portable import portable_stream, portable_case        # noqa: E402
 from .c20_other import other_models_stream, other_case          # noqa: E402
+from .c20_state import flags_stream, memo_stream, memo_case      # noqa: E402
